@@ -72,6 +72,9 @@ BUILTIN_RAISES = [
     ('exception-in-class-body', "class K:\n    y = undefined_thing"),
     ('exception-in-lambda', "f = lambda v: v.missing\nf(3)"),
     ('exception-in-generator', "def gen():\n    yield 1\n    raise ValueError('gen')\nfor v in gen():\n    pass"),
+    ('user-exception-str-exits', "import sys\nclass MyError(Exception):\n    def __str__(self):\n        sys.exit(3)\nraise MyError('mine')"),
+    ('user-exception-str-raises-base', "class Stop(BaseException):\n    pass\nclass MyError(Exception):\n    def __str__(self):\n        raise Stop()\nraise MyError('mine')"),
+    ('user-exception-repr-exits', "class MyError(Exception):\n    def __repr__(self):\n        raise SystemExit\nraise MyError('mine')"),
     ('user-exception-setattr-raises', "class MyError(Exception):\n    def __setattr__(self, k, v):\n        raise ValueError('frozen')\nraise MyError('mine')"),
     ('user-exception-len-zero', "class MyError(Exception):\n    def __len__(self):\n        return 0\nraise MyError('mine')"),
     ('user-exception-bool-raises', "class MyError(Exception):\n    def __bool__(self):\n        raise RuntimeError('no bool')\nraise MyError('mine')"),
